@@ -6,7 +6,7 @@ from . import _nodecommon
 from .. import nodegen
 
 ID = "C02"
-SUITES = ["core", "node"]
+SUITES = ["core", "node", "init"]
 LEAN_MODULES = ["VpnCloud.Proofs.C02", "VpnCloud.Proofs.C02Node", "VpnCloud.Proofs.C02More", "VpnCloud.Proofs.GuardsUsed", "VpnCloud.Proofs.C10Net"]
 THEOREMS = ["VpnCloud.Proofs.C02." + n for n in ("roundtrip", "accepted_is_genuine", "reject_no_state", "garbage_rejected", "reflection_rejected", "cross_connection_rejected")] + [
             "VpnCloud.Proofs.C02Node.wire_is_sealed", "VpnCloud.Proofs.C02Node.pending_session_carries_nothing", "VpnCloud.Proofs.C02Node.pending_session_cannot_send"]
@@ -77,6 +77,10 @@ def gen(tier, rng):
     yield nodegen.reconfig_restart_script(r, "node-restart-plain-to-sealed", (plain, nodegen.algos_str(True, [])), (None, sealed))
     yield nodegen.reconfig_restart_script(r, "node-restart-sealed-to-plain", (plain, sealed), (None, nodegen.algos_str(True, [])))
     yield nodegen.plain_script(r, "node-plain-mixed", [True, False, "only"])
+    # "unless both ends explicitly enabled": what the peer enabled is what its signed handshake message lists — cipher ids of a newer peer are no plain marker
+    from .. import initgen
+    for sc in initgen.signed_parts_scripts(rng.fork("signed"), thorough):
+        yield sc
     if thorough:
         yield nodegen.plain_script(r, "node-plain-switch", [True, "only", True, False], mode="switch", dev="tap", seconds=12)
 
